@@ -74,6 +74,81 @@ theorem calls_commute_iff (s t : St) (c1 c2 : Call) (hi : Indep s.r.fl.cls c1 c2
     (step s c1 >>= fun s1 => step s1 c2) = .ok t ↔ (step s c2 >>= fun s2 => step s2 c1) = .ok t :=
   ⟨calls_commute s t c1 c2 hi, calls_commute s t c2 c1 ⟨hi.2, hi.1⟩⟩
 
+/-! ## Chains: reordering adjacent independent calls, any number of times -/
+
+theorem run_append (s : St) (xs ys : List Call) : run s (xs ++ ys) = (run s xs >>= fun s' => run s' ys) := by
+  induction xs generalizing s with
+  | nil => rfl
+  | cons c cs ih =>
+    simp only [List.cons_append, run]
+    cases step s c with
+    | error e => rfl
+    | ok s1 => exact ih s1
+
+theorem run_cls (cs : List Call) : ∀ (s s' : St), run s cs = .ok s' → s'.r.fl.cls = s.r.fl.cls := by
+  induction cs with
+  | nil => intro s s' h; cases ok_inj h; rfl
+  | cons c cs ih =>
+    intro s s' h
+    unfold run at h
+    cases h1 : step s c with
+    | error e => simp [h1, bind, Except.bind] at h
+    | ok s1 =>
+      simp only [h1, bind, Except.bind] at h
+      rw [ih s1 s' h, step_cls s s1 c h1]
+
+/-- one adjacent swap of independent calls inside a chain -/
+theorem run_swap (s t : St) (pre post : List Call) (c1 c2 : Call) (hi : Indep s.r.fl.cls c1 c2)
+    (h : run s (pre ++ c1 :: c2 :: post) = .ok t) : run s (pre ++ c2 :: c1 :: post) = .ok t := by
+  rw [run_append] at h ⊢
+  cases hp : run s pre with
+  | error e => simp [hp, bind, Except.bind] at h
+  | ok sp =>
+    first | rw [hp] at h | skip
+    change run sp (c1 :: c2 :: post) = .ok t at h
+    change run sp (c2 :: c1 :: post) = .ok t
+    have hc : sp.r.fl.cls = s.r.fl.cls := run_cls pre s sp hp
+    -- the two calls, then the rest
+    have e12 : ∀ a b : Call, run sp (a :: b :: post) = ((step sp a >>= fun s1 => step s1 b) >>= fun s2 => run s2 post) := by
+      intro a b
+      simp only [run, bind, Except.bind]
+      cases step sp a with
+      | error e => rfl
+      | ok s1 => rfl
+    rw [e12] at h ⊢
+    cases h12 : (step sp c1 >>= fun s1 => step s1 c2) with
+    | error e => rw [h12] at h; cases h
+    | ok s2 =>
+      rw [calls_commute sp s2 c1 c2 (hc ▸ hi) h12]
+      rw [h12] at h
+      exact h
+
+/-- chains related by adjacent swaps of independent calls (`cls` is the class of the receiver) -/
+inductive TraceEq (cls : QClass) : List Call → List Call → Prop
+  | refl (cs) : TraceEq cls cs cs
+  | swap (pre post c1 c2) : Indep cls c1 c2 → TraceEq cls (pre ++ c1 :: c2 :: post) (pre ++ c2 :: c1 :: post)
+  | trans {a b c} : TraceEq cls a b → TraceEq cls b c → TraceEq cls a c
+
+theorem TraceEq.symm {cls : QClass} {a b : List Call} (h : TraceEq cls a b) : TraceEq cls b a := by
+  induction h with
+  | refl cs => exact .refl cs
+  | swap pre post c1 c2 hi => exact .swap pre post c2 c1 ⟨hi.2, hi.1⟩
+  | trans _ _ ih1 ih2 => exact .trans ih2 ih1
+
+/-- **Any reordering by swaps of independent neighbours gives the same accepted result** — the concrete form of "any
+interleaving that keeps the relative order of calls of the same kind renders the identical statement": two calls of the same
+kind write the same slot and are never independent, so their order is kept by construction. -/
+theorem run_traceEq (s t : St) (a b : List Call) (h : TraceEq s.r.fl.cls a b) : run s a = .ok t ↔ run s b = .ok t := by
+  induction h with
+  | refl cs => exact Iff.rfl
+  | swap pre post c1 c2 hi =>
+    exact ⟨run_swap s t pre post c1 c2 hi, run_swap s t pre post c2 c1 ⟨hi.2, hi.1⟩⟩
+  | trans _ _ ih1 ih2 => exact ih1.trans ih2
+
+/-- calls that write a common slot (in particular two calls of one kind) are never independent: `TraceEq` keeps their order -/
+theorem not_indep_of_common_write (cls : QClass) (c1 c2 : Call) (w : Slot) (h1 : w ∈ writes cls c1) (h2 : w ∈ writes cls c2) :
+    ¬ Indep cls c1 c2 := fun hi => (hi.1 w h1).2 h2
+
 /-! instances: pairs of clause calls that the table declares independent, for every argument (decided on the tables) -/
 
 example (cls : QClass) (a : List Arg) (c : Term) : Indep cls (.groupby a) (.where_ c) := by
